@@ -37,6 +37,13 @@ instance {α} [DecidableEq α] : DecidableEq (Except Err α) := fun a b =>
   | .ok _, .error _ => isFalse (by intro h; cases h)
   | .error _, .ok _ => isFalse (by intro h; cases h)
 
+/-- What the translator reads off `_resolve_path`: the containment test, and whether the name's
+backslashes are replaced by slashes before it is joined to the root. -/
+structure Cfg where
+  contain : ContainKind
+  foldSlash : Bool
+deriving DecidableEq, Repr
+
 structure RawFS where
   root : Str
   constrain : Bool
@@ -46,9 +53,9 @@ deriving Repr
 def mkRaw (cwd path : Str) (constrain : Bool) : RawFS := ⟨abspath cwd path, constrain⟩
 
 /-- `RawFileSystem._resolve_path`. -/
-def resolve (k : ContainKind) (cwd : Str) (fs : RawFS) (p : Str) : Except Err Str :=
-  let q := abspath cwd (join2 fs.root p)
-  if fs.constrain && !inside k fs.root q then .error .escape else .ok q
+def resolve (k : Cfg) (cwd : Str) (fs : RawFS) (p : Str) : Except Err Str :=
+  let q := abspath cwd (join2 fs.root (if k.foldSlash then replaceBS p else p))
+  if fs.constrain && !inside k.contain fs.root q then .error .escape else .ok q
 
 /-- A regular file of the real tree. -/
 structure Ent where
@@ -62,24 +69,24 @@ abbrev Tree := List Ent
 def fileAt (t : Tree) (q : Str) : Option Ent := t.find? fun e => e.comps == comps q
 
 /-- `name in fs` (`_file_exists`). -/
-def existsIn (k : ContainKind) (cwd : Str) (fs : RawFS) (t : Tree) (p : Str) : Except Err Bool := do
+def existsIn (k : Cfg) (cwd : Str) (fs : RawFS) (t : Tree) (p : Str) : Except Err Bool := do
   let q ← resolve k cwd fs p
   pure (fileAt t q).isSome
 
 /-- `fs[name]` (`_get_file`): the `File`'s path/data, i.e. the name with backslashes replaced. -/
-def getFile (k : ContainKind) (cwd : Str) (fs : RawFS) (t : Tree) (p : Str) : Except Err Str := do
+def getFile (k : Cfg) (cwd : Str) (fs : RawFS) (t : Tree) (p : Str) : Except Err Str := do
   let q ← resolve k cwd fs p
   if (fileAt t q).isSome then pure (replaceBS p) else throw .notFound
 
 /-- `fs.open_bin(name)` / `fs.open_str(name)` with a string (or with a `File`'s data): which file is read. -/
-def openName (k : ContainKind) (cwd : Str) (fs : RawFS) (t : Tree) (p : Str) : Except Err Ent := do
+def openName (k : Cfg) (cwd : Str) (fs : RawFS) (t : Tree) (p : Str) : Except Err Ent := do
   let q ← resolve k cwd fs p
   match fileAt t q with
   | some e => pure e
   | none => throw .notFound
 
 /-- `fs[name].open_bin()`. -/
-def getOpen (k : ContainKind) (cwd : Str) (fs : RawFS) (t : Tree) (p : Str) : Except Err Ent := do
+def getOpen (k : Cfg) (cwd : Str) (fs : RawFS) (t : Tree) (p : Str) : Except Err Ent := do
   let d ← getFile k cwd fs t p
   openName k cwd fs t d
 
@@ -88,7 +95,7 @@ def absOf (cs : List Str) : Str := '/' :: joinWith '/' cs
 /-- `fs.walk_folder(folder)`: (File.path, the file) for every regular file below the folder
 (`os.walk` of something that is not a directory yields nothing). Order is the tree's order; the
 harness sorts. -/
-def walk (k : ContainKind) (cwd : Str) (fs : RawFS) (t : Tree) (folder : Str) : Except Err (List (Str × Ent)) := do
+def walk (k : Cfg) (cwd : Str) (fs : RawFS) (t : Tree) (folder : Str) : Except Err (List (Str × Ent)) := do
   let q ← resolve k cwd fs folder
   let qc := comps q
   pure ((t.filter fun e => qc.isPrefixOf e.comps && qc.length < e.comps.length).map fun e =>
@@ -102,7 +109,7 @@ structure Member where
 deriving Repr
 
 /-- `FileSystemChain._get_file`: (member, chain File.path = full name, inner File data). -/
-def chainGet (k : ContainKind) (cwd : Str) (t : Tree) (name : Str) : List Member → Except Err (Member × Str × Str)
+def chainGet (k : Cfg) (cwd : Str) (t : Tree) (name : Str) : List Member → Except Err (Member × Str × Str)
   | [] => throw .notFound
   | m :: ms =>
     let full := replaceBS (join2 m.pfx name)
@@ -112,12 +119,12 @@ def chainGet (k : ContainKind) (cwd : Str) (t : Tree) (name : Str) : List Member
     | .error .escape => throw .escape
 
 /-- `chain[name].open_bin()` / `chain.open_bin(name)`. -/
-def chainOpen (k : ContainKind) (cwd : Str) (t : Tree) (ms : List Member) (name : Str) : Except Err Ent := do
+def chainOpen (k : Cfg) (cwd : Str) (t : Tree) (ms : List Member) (name : Str) : Except Err Ent := do
   let (m, _, inner) ← chainGet k cwd t name ms
   openName k cwd m.fs t inner
 
 /-- `chain.walk_folder_repeat(folder)`: (chain File.path, file read when it is opened). -/
-def chainWalkRepeat (k : ContainKind) (cwd : Str) (t : Tree) (folder : Str) : List Member → Except Err (List (Str × Except Err Ent))
+def chainWalkRepeat (k : Cfg) (cwd : Str) (t : Tree) (folder : Str) : List Member → Except Err (List (Str × Except Err Ent))
   | [] => pure []
   | m :: ms => do
     let fullFolder := replaceBS (join2 m.pfx folder)
@@ -134,7 +141,7 @@ def dedupFold (fold : Char → List Char) : List Str → List (Str × α) → Li
     let f := foldStr fold p
     if seen.contains f then dedupFold fold seen r else (p, a) :: dedupFold fold (f :: seen) r
 
-def chainWalk (k : ContainKind) (fold : Char → List Char) (cwd : Str) (t : Tree) (folder : Str)
+def chainWalk (k : Cfg) (fold : Char → List Char) (cwd : Str) (t : Tree) (folder : Str)
     (ms : List Member) : Except Err (List (Str × Except Err Ent)) := do
   let l ← chainWalkRepeat k cwd t folder ms
   pure (dedupFold fold [] l)
